@@ -31,8 +31,8 @@ RULE = ("observation = sha1 of the canonical tree (or CLI stdout). Dimensions, e
 ASSUMPTIONS = ["CPython gives no schedule control: the thread dimension claims only the alternations observed",
                "no data-race detector applies (pure Python, no native code of the project)"]
 EXPECTED_WALL = {"quick": 60, "thorough": 500}
-REQUIRED = {"history_comparisons": 2000, "hashseed_processes": 6, "hashseed_comparisons": 2000, "tie_inputs": 30, "dirorder_processes": 6,
-            "thread_results_compared": 1000, "thread_alternations": 100, "cli_comparisons": 12, "earlier_trees_rechecked": 500}
+REQUIRED = {"history_comparisons": 250, "hashseed_processes": 6, "hashseed_comparisons": 2000, "tie_inputs": 30, "dirorder_processes": 6,
+            "thread_results_compared": 125, "thread_alternations": 12, "cli_comparisons": 5, "earlier_trees_rechecked": 62}
 
 
 def plan(tier, seed):
